@@ -14,7 +14,7 @@ RULE = ("cases = steps (add block / flush / clean stop / restart / mempool noise
 
 def run_node(ctx, pid):
     q = ctx.quick()
-    ctx.tlc_mc("node", "MCNode.tla", "MC_Node.cfg", timeout=900, coverage=not q, must_cover=False)
+    ctx.tlc_mc("node", "MCNode.tla", "MC_Node.cfg" if q else "MC_Node_t.cfg", timeout=3000, coverage=False, must_cover=False)
     try:
         ctx.tlc_mc("node", "MCNode.tla", "MC_NodeBug.cfg", timeout=300)
         raise vlib.Inconclusive("named deviation BugStaleFlag not detected by the Node model")
@@ -22,14 +22,14 @@ def run_node(ctx, pid):
         ctx.extra["model_selftests"] = 1
     scheds = []
     seen = set()
-    for h in ctx.tlc_sim("node", "NodeSim.tla", "Sim_Node.cfg", num=10 if q else 120, depth=160, timeout=600):
+    for h in ctx.tlc_sim("node", "NodeSim.tla", "Sim_Node.cfg" if q else "Sim_Node_t.cfg", num=10 if q else 300, depth=160 if q else 400, timeout=900):
         k = json.dumps(h)
         if k not in seen:
             seen.add(k)
             scheds.append(h)
     import random
     random.Random(ctx.seed).shuffle(scheds)
-    scheds = scheds[: (10 if q else 120)]
+    scheds = scheds[: (10 if q else 300)]
     if not scheds:
         raise vlib.Inconclusive("no schedules generated")
     ind = os.path.join(ctx.work, "in-c01")
